@@ -321,7 +321,7 @@ static void DecodeLDI(Word Index) {
     } else {
         Value = EvalStrIntExpression(&ArgStr[2], Int16, &OK);
         if (OK) {
-            DAsmCode[0] = (3l << TypePos) + Reg + (Value << ImmValPos);
+            DAsmCode[0] = (3l << TypePos) + Reg + ((Value & 0xfffful) << ImmValPos);
             CodeLen     = 1;
         }
     }
